@@ -250,6 +250,24 @@ theorem sph_cart_sph (r az alt : ℝ) (hr : 0 < r) (a0 : -Real.pi < az) (a1 : az
     rw [mk_eq_polar]
     exact Complex.arg_mul_cos_add_sin_mul_I hr ⟨by linarith [Real.pi_pos], by linarith [Real.pi_pos]⟩
 
+/-- The same for **any** azimuth (many revolutions): radius and altitude come back unchanged, the
+azimuth as its representative in (−π, π]. -/
+theorem sph_cart_sph_any (r az alt : ℝ) (hr : 0 < r)
+    (b0 : -(Real.pi / 2) < alt) (b1 : alt < Real.pi / 2) :
+    ∃ k : ℤ, cartToSph Real.sqrt atan2 (sphToCart Real.sin Real.cos r az alt).1
+      (sphToCart Real.sin Real.cos r az alt).2.1 (sphToCart Real.sin Real.cos r az alt).2.2
+      = (r, az - k * (2 * Real.pi), alt) := by
+  obtain ⟨_, k, hk⟩ := polar_cart_polar_any 1 az one_pos
+  -- reduce the azimuth to its principal representative and use the principal-range theorem
+  have hrange := azimuth_range (polarToCart Real.sin Real.cos 1 az).1 (polarToCart Real.sin Real.cos 1 az).2
+  rw [hk] at hrange
+  refine ⟨k, ?_⟩
+  have hper : sphToCart Real.sin Real.cos r az alt
+      = sphToCart Real.sin Real.cos r (az - k * (2 * Real.pi)) alt := by
+    unfold sphToCart sinCos
+    simp only [Real.sin_sub_int_mul_two_pi, Real.cos_sub_int_mul_two_pi]
+  rw [hper]
+  exact sph_cart_sph r (az - k * (2 * Real.pi)) alt hr hrange.1 hrange.2 b0 b1
 /-! ### asin -/
 
 /-- `asin` accepts exactly `[-1, 1]` (and panics outside), and then returns an angle in
